@@ -246,6 +246,17 @@ theorem representing_support {α : Type} [DecidableEq α] (dist : List (α × Ra
   · have hlt : n < (roundedSamples dist n).length := by omega
     exact hbase x ((eliminate_length extra _ hk (hpresent hlt)).2 x hx)
 
+/-- TRANSLATION TIE: the Lean definition regenerated on every run from the CURRENT Python source of
+    `_expand_sample_size` (harness/translate.py → OQ/Generated/Translated.lean) is the hand-written model,
+    for a positive maximum (where Python's floor division / modulo are Lean's `/` and `%`).  An edit of the
+    Python function changes the generated definition and this theorem stops checking. -/
+theorem translated_expand_sample_size_eq (n m : Int) (hm : 0 < m) :
+    OQ.Generated.Translated.expand_sample_size n m = expandSampleSize n m := by
+  unfold OQ.Generated.Translated.expand_sample_size expandSampleSize
+  simp only [Int.fdiv_eq_ediv_of_nonneg _ (le_of_lt hm), Int.fmod_eq_emod_of_nonneg _ (le_of_lt hm),
+    flatten_replicate_singleton]
+  by_cases h : n % m = 0 <;> simp [h]
+
 /-! non-vacuity: concrete inputs meeting the hypotheses -/
 example : expandSampleSize 7 3 = ([3, 3, 1], 3) := by decide
 example : (expandSampleSizes ["a", "b"] [7, 6] 3).2.1 = [3, 3, 1, 3, 3] := by decide
